@@ -212,7 +212,7 @@ func mutateNames(r *rng.R, sc *gen.Script) string {
 			v.Name = v.Name + "_x"
 			return "rename-use"
 		case 4: // add an unused declaration
-			sc.Vars = append(sc.Vars, &gen.VarDecl{Type: r.Pick("monetary", "account", "string"), Name: "unused_" + itoa(r.Intn(5))})
+			sc.Vars = append(sc.Vars, &gen.VarDecl{Type: r.Pick("monetary", "account", "string"), Name: r.Pick("unused_", "_", "_fee", "__m", "x", "world", "kept_", "tmp") + itoa(r.Intn(5))})
 			return "add-unused-declaration"
 		case 5: // origin argument referring to a later / same / missing declaration
 			if len(sc.Vars) < 2 {
